@@ -207,6 +207,7 @@ fn enumerate_mapping(run: u64, mapping: &[u8], st: &mut Stats, vs: &mut Vec<Viol
         for i in 0..n_calls {
             let kinds = [
                 FaultKind::Short((i as u32).wrapping_mul(2654435761u32).wrapping_add(7)),
+                FaultKind::Short(0), // exactly one byte accepted
                 FaultKind::Interrupted(1),
                 FaultKind::Interrupted(3),
                 FaultKind::Hard(ErrK::ALL[(i % 4) as usize], true),
@@ -232,6 +233,9 @@ fn enumerate_mapping(run: u64, mapping: &[u8], st: &mut Stats, vs: &mut Vec<Viol
                     (FaultKind::Short(0x1656_67b1), FaultKind::Hard(ErrK::BrokenPipe, true)),
                     (FaultKind::Interrupted(2), FaultKind::Hard(ErrK::StorageFull, false)),
                     (FaultKind::Short(0x9e37_79b9), FaultKind::Zero(true)),
+                    (FaultKind::Short(0x2545_f491), FaultKind::Hard(ErrK::WouldBlock, false)),
+                    (FaultKind::Short(0), FaultKind::Hard(ErrK::TimedOut, false)),
+                    (FaultKind::Short(0), FaultKind::Interrupted(64)),
                 ];
                 for (a, b) in pairs {
                     let plan = SinkPlan { cap, faults: vec![Fault { at: i, kind: a }, Fault { at: i + 1, kind: b }], disk_capacity: None };
@@ -281,7 +285,13 @@ fn enumerate_mapping(run: u64, mapping: &[u8], st: &mut Stats, vs: &mut Vec<Viol
 /// A mapping whose sections are large (several KiB each): size-dependent write paths exist.
 fn gen_large(rng: &mut Rng) -> Vec<u8> {
     let mut cfg = gen::GenCfg::swarm(rng, 10, 10);
-    if rng.chance(1, 2) {
+    if rng.chance(1, 6) {
+        cfg.max_classes = rng.range(2400, 6500); // > 64 KiB of class entries
+        cfg.max_members = 1;
+        cfg.pct_wide_class = 0;
+        cfg.class_pool = 16;
+        cfg.huge_names = false;
+    } else if rng.chance(1, 2) {
         cfg.max_classes = rng.range(2, 5);
         cfg.pct_wide_class = 100; // 70..150 distinct methods per class
     } else {
@@ -484,9 +494,9 @@ pub fn main(env: &Env) -> i32 {
         let n_total = n_gen + corpus.len() as u64 + 1 + n_large;
         rep.rule = format!(
             "per mapping ({} seeded-generated with 0..6 classes x 0..8 members, {} small corpus files, 1 hand-written padding case): fault-free control; every chunk cap 1..16; \
-             for caps {{1,3,4,7,inf}} EVERY sink call index x {{short-once, Interrupted x1, Interrupted x3, hard sticky, hard transient, soft transient, Ok(0) once, Ok(0) forever}}; for caps {{4,inf}} Interrupted bursts of 63/64/65/128/256/1000 at every call; for caps {{3,inf}} also 7 two-fault pairs at adjacent calls (i, i+1) and for cap inf every error kind sticky/transient at every call; \
+             for caps {{1,3,4,7,inf}} EVERY sink call index x {{short-once, Interrupted x1, Interrupted x3, hard sticky, hard transient, soft transient, Ok(0) once, Ok(0) forever}}; for caps {{4,inf}} Interrupted bursts of 63/64/65/128/256/1000 at every call; for caps {{3,inf}} also 10 two-fault pairs at adjacent calls (i, i+1) and for cap inf every error kind sticky/transient at every call; \
              disk-full at EVERY capacity 0..len for caps {{inf,1,5}}. Exhaustive for each mapping over that single-fault space. \
-             Plus 32 large-section mappings (wide classes of 70..150 methods, or 150..260 classes): every chunk cap 1..16 fault-free and 160 seeded multi-fault plans each. \
+             Plus 32 large-section mappings (wide classes of 70..150 methods, 150..260 classes, or 2400..6500 classes): every chunk cap 1..16 fault-free and 160 seeded multi-fault plans each. \
              distinct_nontrivial = executions (distinct by construction per distinct mapping) in which a fault fired or the cap truncated a call.",
             n_gen,
             corpus.len()
